@@ -78,6 +78,7 @@ class _SortedIterator:
         self._handle: gzip.GzipFile = gzip.open(path, mode="rb", compresslevel=5)
         self._next_value: TNextValue = None
         self._next_key: TNextKey = None
+        self._has_next = False
         self._closed = False
         self.__advance()
 
@@ -95,6 +96,7 @@ class _SortedIterator:
                 data = self._handle.read(size=length)
                 self._next_value = self._codec.decode(data, 0, length)
                 self._next_key = self._key_func(self._next_value)
+                self._has_next = True
 
     def __lt__(self, other: '_SortedIterator') -> bool:
         return self.peek_key() < other.peek_key()  # type: ignore
@@ -110,8 +112,12 @@ class _SortedIterator:
         """Gets the next record in sorted order"""
         return self.__next__()
 
+    def has_next(self) -> bool:
+        """Returns true if there is a next record, whatever its truth value"""
+        return self._has_next
+
     def __next__(self) -> TNextValue:
-        if not self._next_value:
+        if not self._has_next:
             raise StopIteration
         return_value = self._next_value
         self.__advance()
@@ -121,6 +127,7 @@ class _SortedIterator:
         """Sets the next key and value to None"""
         self._next_value = None
         self._next_key = None
+        self._has_next = False
 
     def close(self) -> None:
         """Closes the underlying temporary file"""
@@ -160,7 +167,7 @@ class _MergingIterator:
             raise StopIteration
         s_iter = heapq.heappop(self._heap)
         entry = s_iter.next()
-        if s_iter.peek_key():
+        if s_iter.has_next():
             heapq.heappush(self._heap, s_iter)
         return entry  # type: ignore
 
